@@ -224,6 +224,9 @@ SWEEPS = [
     ("lazy-ignores", "lazy-ignores", "check_orphaned", [True, False]),
     ("file-header", "file-header", "mandatory_fields", [["Purpose", "Scope", "Overview", "Zebra"], ["Purpose", "Scope", "Overview"], ["Purpose"]]),
     ("file-header", "file-header", "check_atemporal", [True, False]),
+    ("file-header", "file-header", "recommended_fields", [["Zebra", "Exports"], []]),
+    ("pipeline", "collection-pipeline", "suggest_filter", [False, True]),
+    ("pipeline", "collection-pipeline", "suggest_comprehension", [False, True]),
     ("unwrap-abuse", "unwrap-abuse", "allow_expect", [False, True]),
     ("blocking-async", "blocking-async", "detect_net_in_async", [True, False]),
     ("clone-abuse", "clone-abuse", "detect_unnecessary_clone", [True, False]),
@@ -232,6 +235,9 @@ SWEEPS = [
     ("blocking-async", "blocking-async", "detect_sleep_in_async", [True, False]),
     ("blocking-async", "blocking-async", "detect_fs_in_async", [True, False]),
 ]
+
+# settings whose documented effect is the wording of a finding or an extra notice at the same place
+MESSAGE_LEVEL = {"recommended_fields", "suggest_filter", "suggest_comprehension"}
 
 # documented configuration section of every command (for enabled: false)
 SECTIONS = {
